@@ -76,7 +76,7 @@ def run(tier):
     expected = {}
     privacy = []
     for i in range(nprog):
-        g = GP.Gen(random.Random(rng.getrandbits(64)), max_funcs=4)
+        g = GP.Gen(random.Random(rng.getrandbits(64)), level=3, with_structs=False, max_funcs=4)
         p = g.program()
         names = [f[0] for f in p["funcs"]]
         single = GP.source(p, random.Random(i), plain=True)
@@ -97,6 +97,25 @@ def run(tier):
             victim = sorted(needs_pub)[0]
             text, _ = GP.source_modules(p, assign, random.Random(i), break_privacy=victim)
             privacy.append(("s%d.priv" % i, text))
+    # state that must not leak from one module into the next: k private constants (and a private
+    # function) in one module, a function with n parameters and m local variables in another - every
+    # small combination, both file orders, against the single file
+    sw = 0
+    for k in range(0, 6):
+        for npar in range(0, 4):
+            for nloc in range(1, 4):
+                consts = "".join("const C%d: i32 = %d;\n" % (j, 1000 + 111 * j) for j in range(k))
+                csum = " + ".join(["0"] + ["C%d" % j for j in range(k)])
+                params = ", ".join("p%d: i32" % j for j in range(npar))
+                body = "".join("\tvar v%d: i32 = %s;\n" % (j, ("p%d * 3" % (j % npar)) if npar else str(7 + j)) for j in range(nloc))
+                ret = " + ".join("v%d" % j for j in range(nloc))
+                util = "pub fn scale(%s) -> i32\n{\n%s\treturn: %s\n}\n" % (params, body, ret)
+                args = ", ".join(str(2 + j) for j in range(npar))
+                main = "fn own() -> i32\n{\n\treturn: %s\n}\nfn main() -> u8\n{\n\tprint!(own(), \" \", scale(%s), \"\\n\");\n\treturn: 0\n}\n" % (csum, args)
+                base = "w%d" % sw; sw += 1
+                cases.append((base, consts + util + main))
+                cases.append((base + ".o0", "//// module main.pn\nimport \"util.pn\";\n%s%s//// module util.pn\n%s" % (consts, main, util)))
+                cases.append((base + ".o1", "//// module util.pn\n%s//// module main.pn\nimport \"util.pn\";\n%s%s" % (util, consts, main)))
     impl2 = C.run_harness("exec-tools", cases + privacy, ck.work + "/compose", timeout=1800)
     compared = 0; outs = set()
     for cid, src in cases:
@@ -133,9 +152,9 @@ def run(tier):
         ck.violation("tie-broken:proof", "Props/C12.v no longer checks", getattr(ck, "proof_output", "")[-2000:])
     ck.coverage.update(
         evaluations=len(sets) + len(cases) + len(privacy), distinct_nontrivial=len(nontrivial) + len(outs),
-        rule="expand stream: random sets of 1-4 modules (imports incl. cycles, self-imports, duplicates, unresolved; pub/private/extern constants, functions, heads, structures) through the real lexer+parser+expander vs Model/Expand.v, each expanded 6 times for determinism; composition stream: generated programs split over 2-4 modules in up to %s file orders vs the single file (lli output), plus one variant per program with a needed `pub` removed (must be rejected); distinct = distinct expansions with spliced imports + distinct outputs" % ("6" if tier == "quick" else "24"),
+        rule="expand stream: random sets of 1-4 modules (imports incl. cycles, self-imports, duplicates, unresolved; pub/private/extern constants, functions, heads, structures) through the real lexer+parser+expander vs Model/Expand.v, each expanded 6 times for determinism; composition stream: generated programs split over 2-4 modules in up to %s file orders vs the single file (lli output), plus one variant per program with a needed `pub` removed (must be rejected), plus a sweep of two-module programs (0-5 private constants in one module x 0-3 parameters x 1-3 local variables in the other, both file orders) for state leaking between modules; distinct = distinct expansions with spliced imports + distinct outputs" % ("6" if tier == "quick" else "24"),
         expand_sets=len(sets), expand_mismatches=mism, composition_runs=compared, privacy_variants_rejected=rejected_priv,
         samples=[dict(modules=sets[1][1], real=impl.get(sets[1][0], ["?"])[1:2]), dict(modules=cases[1][1] if len(cases) > 1 else "")])
-    ck.assumptions += ["import path resolution (get_key_offset) is a parameter of the model; the check uses flat file names resolved by exact match",
+    ck.assumptions += ["import path resolution is modelled for relative paths without . and .. components",
                        "behavioural composition is established by execution (lli), not by proof"]
     return ck.finish()
